@@ -25,7 +25,7 @@ func (c12) Rule() string {
 }
 func (c12) Assumptions() []string {
 	return []string{
-		"HOME is set (to one of three directories in turn, per case with a ~ path); Windows path strings are exercised on Linux; a relative working directory is not exercised (the worker does not chdir)",
+		"HOME is set (every case with a ~ path runs under two home directories one after the other); Windows path strings are exercised on Linux; a relative working directory is not exercised (the worker does not chdir)",
 		"URL-like shapes are asserted for build contexts only; for other attributes they are ordinary relative paths by the statement",
 	}
 }
@@ -255,24 +255,34 @@ func c12remotes(c *core.Ctx) {
 	}
 }
 
-// c12homeSeq alternates the home directory between cases: `~` is the home directory of the moment, not of the first load
-var c12homeSeq int
-
+// c12case: a case with a `~` path is run twice, under two different home directories one after the other: `~` is the home
+// directory of the moment, not the one of the first load of the process.
 func c12case(id string, a c12attr, sh c12shape, origin, wd string, resolve bool, home string) core.Outcome {
-	if sh.kind == "home" {
-		c12homeSeq++
-		home = filepath.Join(Scratch(), fmt.Sprintf("home%d", c12homeSeq%3))
-		os.MkdirAll(home, 0o755)
-		prev, had := os.LookupEnv("HOME")
-		os.Setenv("HOME", home)
-		defer func() {
-			if had {
-				os.Setenv("HOME", prev)
-			} else {
-				os.Unsetenv("HOME")
-			}
-		}()
+	if sh.kind != "home" {
+		return c12caseAt(id, a, sh, origin, wd, resolve, home)
 	}
+	prev, had := os.LookupEnv("HOME")
+	defer func() {
+		if had {
+			os.Setenv("HOME", prev)
+		} else {
+			os.Unsetenv("HOME")
+		}
+	}()
+	var out core.Outcome
+	for _, h := range []string{"homeA", "homeB"} {
+		dir := filepath.Join(Scratch(), h)
+		os.MkdirAll(dir, 0o755)
+		os.Setenv("HOME", dir)
+		out = c12caseAt(id+"@"+h, a, sh, origin, wd, resolve, dir)
+		if out.Viol != nil {
+			return out
+		}
+	}
+	return out
+}
+
+func c12caseAt(id string, a c12attr, sh c12shape, origin, wd string, resolve bool, home string) core.Outcome {
 	body, top := a.doc(sh.v)
 	svcDoc := "services:\n  s:\n" + body + top
 	files := map[string]string{}
